@@ -204,6 +204,11 @@ func genCase(t *rapid.T) Case {
 	e0 := rapid.SampledFrom(epochs).Draw(t, "startEpoch")
 	c.StartSlot = e0*p.SlotsPerEpoch + rapid.Uint64Range(0, p.SlotsPerEpoch-1).Draw(t, "startSlotInEpoch")
 	offsets := []uint64{0, 0, 1, p.MaxAttestationDelayMs, p.MaxAttestationDelayMs + 1, slotMs / 2, slotMs - 1}
+	for i := range offsets {
+		if offsets[i] > slotMs-1 {
+			offsets[i] = slotMs - 1 // an offset stays inside the slot
+		}
+	}
 	c.StartOffsetMs = rapid.SampledFrom(offsets).Draw(t, "startOffset")
 	waited := false
 	if c.StartSlot == 0 {
@@ -237,7 +242,8 @@ func genCase(t *rapid.T) Case {
 			slot, off = slot+k, o
 		case "head", "headReorg", "headLate":
 			op := Op{Kind: "head"}
-			if kind == "headLate" && slot%p.SlotsPerEpoch != 0 {
+			if kind == "headLate" && slot > 0 {
+				// for the previous slot; in the first slot of an epoch that is a slot of the previous epoch
 				op.Back = 1
 			}
 			if kind != "head" {
@@ -416,6 +422,7 @@ func check(t ev.TB, c *Case) {
 	add(st.genesisStart, "start-at-genesis-having-waited")
 	add(st.providerErrors > 0, "provider-error")
 	add(st.lateHeadRootChange > 0, "late-head-event-with-root-change")
+	add(st.crossEpochLate > 0, "late-head-event-of-the-previous-epoch")
 	add(st.syncMessages > 0, "sync-messages-sent")
 	add(st.attests > 0, "attested")
 	add(st.proposes > 0, "proposed")
